@@ -225,7 +225,7 @@ impl<'a> DeclVisitor for BuildSession<'a> {
                 _ => {
                     let blob = *rng.pick(&lens.keys().copied().collect::<Vec<_>>());
                     let len = lens[&blob];
-                    let api = if stream { Api::Reader } else { *rng.pick(&[Api::Reader, Api::Reader, Api::Reader, Api::Slice, Api::Str]) };
+                    let api = if stream { Api::Reader } else { *rng.pick(&[Api::Reader, Api::Reader, Api::Reader, Api::Slice, Api::Str, Api::Value]) };
                     let (mut rplan, tail) = gen_rplan(rng, len, true);
                     let overwrite_hex = if rng.chance(1, 8) {
                         let (_, nb) = gen_doc::<D>(rng, shape, core, fmt, stream);
@@ -570,7 +570,7 @@ impl DeclVisitor for EnumDecl {
             st.inc("enum_documents");
             // fault-free baselines over every API
             let base = eval(&mut st, shape, fmt, Api::Reader, SimReader::whole(bytes.clone()), "enum.whole_read", label, false);
-            for api in [Api::Slice, Api::Str] {
+            for api in [Api::Slice, Api::Str, Api::Value] {
                 let r = eval(&mut st, shape, fmt, api, SimReader::whole(bytes.clone()), "enum.whole_read", label, false);
                 if r.a.is_ok() != base.a.is_ok() && !(fmt.base() == Format::Msgpack) {
                     // from_slice vs from_reader may legitimately differ only for zero-copy types; none here.
@@ -961,7 +961,7 @@ fn sweep(cfg: &Config, which: u64, n: u64, keep_trace: bool, workers: usize) -> 
 fn run_check(cfg: &Config) -> i32 {
     let t0 = Instant::now();
     let mut determinism_diverged = false;
-    let (n_sessions, n_byz): (u64, u64) = if cfg.thorough() { (12_000_000, 4_000_000) } else { (1_000_000, 400_000) };
+    let (n_sessions, n_byz): (u64, u64) = if cfg.thorough() { (24_000_000, 8_000_000) } else { (1_000_000, 400_000) };
 
     // 1. single-fault enumeration, sharded by declaration (seed-independent)
     let cfg2 = cfg.clone();
